@@ -148,6 +148,8 @@ def build_same_name(seed, k, order):
     while len(lists) < k:
         mode = rng.choice(["retype-one", "retype-all", "disjoint", "reorder", "superset", "prefix", "overlap-plus-disjoint"])
         src = rng.choice(lists)
+        if not src and mode not in ("disjoint", "superset"):
+            mode = "disjoint"  # a descriptor without fields (a 'prefix' of a one-field list) can only be extended
         if mode == "retype-one":
             j = rng.randrange(len(src))
             new = [(_other_type(rng, t), n) if i == j else (t, n) for i, (t, n) in enumerate(src)]
